@@ -140,6 +140,17 @@ CLAIMS = {
         "must verify. Byte alterations cover the signed range, the signature value and the embedded signer certificate.",
    note="quick: sequences <= 4 records, every 7th octet of altered regions, publication lists <= 2; thorough: <= 6 records, every octet, lists <= 3. Download of the file (HTTP) is not bound.",
    technique="TLC enumeration of a declarative publications-file model + replay of every case into the real parser / PKI verification / lookups with independently built, really signed files"),
+ "C04": dict(level="model_checking", design_ref="DESIGN.md 4/C04",
+   text="AnchorPolicy.tla transcribes the rule trees of the calendar-based, key-based, publications-file, user-publication and general policies (policy.c) as data, gives "
+        "every leaf rule a meaning over an abstract environment (signature with/without calendar chain, publication or authentication record; internal consistency; "
+        "user publication time/hash; publications-file entries; extending allowed; 10 extender behaviours; 7 certificate states incl. validity windows starting/ending at "
+        "the aggregation time) and evaluates them with the interpreter semantics proved in C05. TLC checks on all 176 000 (policy, environment) pairs: OK only if the "
+        "calendar root is bound to the anchor, FAIL only on a contradiction, broken internal verification is never OK, a missing anchor / failed extension is NA, and a "
+        "bound uncontradicted signature is OK. The verdict of each pair is exported; cases of every class are realised with real bytes -- reference-built signature, really "
+        "RSA-signed authentication record, publications file listing a certificate with the chosen validity window, a scripted extender on the real blocking TCP client "
+        "serving an honest calendar database with the chosen deviation -- and KSI_SignatureVerifier_verify must return the spec's result and FAIL code.",
+   note="quick: one case per class (~6-9e3 verifications); thorough: six per class. Where the spec says a resource failure happened on the path, an error status instead of the verdict is accepted (the property allows 'NA, possibly with an error status').",
+   technique="TLC model checking of the transcribed rule trees against the declarative anchor-binding property + replay of the exported verdicts into the real verifier with real PKI, publications files and a scripted extender"),
 }
 for e in ENGINES:
     e["serves_properties"] = sorted(CLAIMS)
